@@ -7,7 +7,9 @@ package harness
 import (
 	"fmt"
 	"math"
+	"math/big"
 	"sort"
+	"strconv"
 	"strings"
 	"testing"
 
@@ -61,6 +63,13 @@ func probeCall(name string, args []mval, log *[]string) (mval, bool, error) {
 		return nil
 	}
 	switch name {
+	case "number", "bool", "string":
+		// C19: string/number/bool of a value already of that type return it unchanged (other argument types are not
+		// modelled here: the case is discarded)
+		if len(args) != 1 || args[0].T != map[string]byte{"number": 'n', "bool": 'b', "string": 's'}[name] {
+			return mval{}, false, evalErrf("unmodelled: %s of another type", name)
+		}
+		return args[0], true, nil
 	case "pt", "pf":
 		if err := need("s"); err != nil {
 			return mval{}, false, err
@@ -132,6 +141,11 @@ func registerProbes(dr *ysgo.DialogueRunner, log *[]string) {
 			if err != nil {
 				return nil, err
 			}
+			if name == "pn" || name == "pb" || name == "ps" {
+				// like many host functions that hand a value through, the probe returns the very value it was given:
+				// an evaluator that modifies a function result in place would modify the script's literal
+				return args[1], nil
+			}
 			return fromMval(v), nil
 		})
 	}
@@ -183,6 +197,9 @@ func decideC02(c c02Case, panicIsFailure bool) Verdict {
 	isErr := false
 	for round := 1; round <= 2; round++ {
 		want, wantErr := evalExpr(c.E, env)
+		if wantErr != nil && strings.HasPrefix(wantErr.Error(), "unmodelled") {
+			return Verdict{Discard: "conversion built-in applied to another type (C19's business)"}
+		}
 		captured = nil
 		var el *ysgo.DialogueElement
 		var gotErr error
@@ -307,7 +324,10 @@ func (g *exprGen) atom(want byte) *Expr {
 	case 'n':
 		switch rapid.IntRange(0, 5).Draw(t, "natom") {
 		case 0, 1:
-			return num(rapid.SampledFrom([]string{"0", "1", "2", "3", "7", "10", "007", "1.50", "0.5", "2.25", "100", "123456789012345678901234567890", "0.1", "0.2"}).Draw(t, "lit"))
+			return num(rapid.SampledFrom([]string{"0", "1", "2", "3", "7", "10", "007", "1.50", "0.5", "2.25", "100", "123456789012345678901234567890", "0.1", "0.2",
+				"0.3", "0.7", "0.9", "1.1", "4.35", "0.30000000000000004", "0.9999999999999999", "2.9999999999999996", "1.0000000000000002",
+				"2147483648", "4294967296", "9007199254740991", "9007199254740992", "9007199254740993", "4611686018427387904",
+				"9223372036854775807", "9223372036854775808", "18446744073709551615", "18446744073709551616", "36893488147419103232"}).Draw(t, "lit"))
 		case 2, 3:
 			return varRef(rapid.SampledFrom([]string{"n1", "n2", "n3"}).Draw(t, "var"))
 		default:
@@ -354,6 +374,8 @@ func (g *exprGen) gen(want byte, depth int) *Expr {
 			return neg(g.gen('n', depth-1))
 		case 1:
 			return par(g.gen('n', depth-1))
+		case 2:
+			return call("number", g.gen('n', depth-1))
 		default:
 			op := rapid.SampledFrom([]string{"*", "/", "%", "+", "-"}).Draw(t, "op")
 			return bin(op, g.gen('n', depth-1), g.gen('n', depth-1))
@@ -363,8 +385,16 @@ func (g *exprGen) gen(want byte, depth int) *Expr {
 		case 0:
 			return withSp(not(g.gen('b', depth-1)))
 		case 1:
+			if rapid.Bool().Draw(t, "conv") {
+				return call("bool", g.gen('b', depth-1))
+			}
 			return par(g.gen('b', depth-1))
-		case 2, 3:
+		case 2:
+			// numbers that are very close: sums of decimal fractions against the decimal sum, neighbouring doubles
+			op := rapid.SampledFrom([]string{"==", "!=", "<=", ">=", "<", ">"}).Draw(t, "op")
+			l, r := genNearPair(t)
+			return withSp(bin(op, l, r))
+		case 3:
 			op := rapid.SampledFrom([]string{"<=", ">=", "<", ">"}).Draw(t, "op")
 			return withSp(bin(op, g.gen('n', depth-1), g.gen('n', depth-1)))
 		case 4, 5:
@@ -376,12 +406,84 @@ func (g *exprGen) gen(want byte, depth int) *Expr {
 			return withSp(bin(op, g.gen('b', depth-1), g.gen('b', depth-1)))
 		}
 	default:
-		switch rapid.IntRange(0, 3).Draw(t, "sshape") {
+		switch rapid.IntRange(0, 4).Draw(t, "sshape") {
 		case 0:
 			return par(g.gen('s', depth-1))
+		case 4:
+			return call("string", g.gen('s', depth-1))
 		default:
 			return bin("+", g.gen('s', depth-1), g.gen('s', depth-1))
 		}
+	}
+}
+
+// genNearPair: two number expressions whose values are equal or differ by a few units in the last place.
+func genNearPair(t *rapid.T) (*Expr, *Expr) {
+	lit := func(f float64) *Expr {
+		if f < 0 {
+			return neg(num(strconv.FormatFloat(-f, 'f', -1, 64)))
+		}
+		return num(strconv.FormatFloat(f, 'f', -1, 64))
+	}
+	decimals := []string{"0.1", "0.2", "0.3", "0.7", "0.9", "1.1", "4.35", "0.15", "100", "3"}
+	switch rapid.IntRange(0, 3).Draw(t, "near") {
+	case 0:
+		// a + b against the sum computed in decimal
+		a, b := rapid.SampledFrom(decimals).Draw(t, "a"), rapid.SampledFrom(decimals).Draw(t, "b")
+		ra, _ := new(big.Rat).SetString(a)
+		rb, _ := new(big.Rat).SetString(b)
+		op := rapid.SampledFrom([]string{"+", "-", "*"}).Draw(t, "arith")
+		var rc *big.Rat
+		switch op {
+		case "+":
+			rc = new(big.Rat).Add(ra, rb)
+		case "-":
+			rc = new(big.Rat).Sub(ra, rb)
+		default:
+			rc = new(big.Rat).Mul(ra, rb)
+		}
+		c := strings.TrimRight(strings.TrimRight(rc.FloatString(6), "0"), ".")
+		var r *Expr
+		if strings.HasPrefix(c, "-") {
+			r = neg(num(c[1:]))
+		} else {
+			r = num(c)
+		}
+		return bin(op, num(a), num(b)), r
+	case 1:
+		// neighbouring doubles
+		x := rapid.SampledFrom([]float64{0.3, 1, 0.1, 2.5, 1e6, 1 << 40, 9007199254740992, 1e15, 123456.789, 1e-7, 4611686018427387904}).Draw(t, "x")
+		y := x
+		for k := rapid.IntRange(-3, 3).Draw(t, "ulps"); k != 0; {
+			if k > 0 {
+				y = math.Nextafter(y, math.Inf(1))
+				k--
+			} else {
+				y = math.Nextafter(y, math.Inf(-1))
+				k++
+			}
+		}
+		if rapid.Bool().Draw(t, "negative") {
+			x, y = -x, -y
+		}
+		return lit(x), lit(y)
+	case 2:
+		// repeated addition of a fraction against the whole
+		n := rapid.IntRange(2, 10).Draw(t, "n")
+		step := rapid.SampledFrom([]string{"0.1", "0.2", "0.7"}).Draw(t, "step")
+		e := num(step)
+		for i := 1; i < n; i++ {
+			e = bin("+", e, num(step))
+		}
+		rs, _ := new(big.Rat).SetString(step)
+		total := new(big.Rat).Mul(rs, big.NewRat(int64(n), 1))
+		return e, num(strings.TrimRight(strings.TrimRight(total.FloatString(3), "0"), "."))
+	default:
+		// quotients and remainders that are almost whole
+		a := rapid.SampledFrom([]string{"0.3", "0.9", "4.35", "1.1", "0.7"}).Draw(t, "a")
+		b := rapid.SampledFrom([]string{"0.1", "0.3", "100", "10"}).Draw(t, "b")
+		op := rapid.SampledFrom([]string{"/", "*", "%"}).Draw(t, "arith")
+		return bin(op, num(a), num(b)), num(fmt.Sprint(rapid.IntRange(0, 9).Draw(t, "whole")))
 	}
 }
 
